@@ -29,13 +29,13 @@ CHECKS = {
     ),
     "C04": dict(
         level="exploration",
-        text="Exactly-once / conservation checked over the recorded history of each simulated run: seeded cases weighted towards filters, redirect files, discard options and demultiplexing are executed by the real cutadapt.cli.main with the serial runner and with 2-5 simulated workers under a seeded schedule; all closed output files are read back (independent strict parsers, stdlib codecs) and related to each other and to the JSON, text and minimal reports (ids unique across files, counts and base pairs equal file contents, input = output + reported categories, ids in no file = categories without redirect file); every 6th small case re-runs each record alone and compares the sums. Sampling, not enumeration.",
+        text="Exactly-once / conservation checked over the recorded history of each simulated run: seeded cases weighted towards filters, redirect files, discard options and demultiplexing are executed by the real cutadapt.cli.main with the serial runner and with 2-5 simulated workers under a seeded schedule; all closed output files are read back (independent strict parsers, stdlib codecs) and related to each other and to the JSON, text and minimal reports (ids unique across files, counts and base pairs equal file contents, input = output + reported categories, ids in no file = categories without redirect file; 30 % of the cases are judged from the printed report instead of --json); every 6th small case re-runs each record alone and compares the sums; quality-trimmed and poly-A-trimmed base counts are checked against the bases actually removed in isolated runs of that modifier. Sampling, not enumeration.",
         design="5/C04",
         note="Trusted: simulation kernel/SimFS as for C06; ids stay recoverable from the names written; report parsers in props/c04.py.",
     ),
     "C05": dict(
         level="exploration",
-        text="Seeded paired-end cases (two files/interleaved, R1/R2 of very different lengths so chunk limits differ, one-sided adapters, every --pair-filter, LEN/LEN:LEN2/LEN:/:LEN2, redirect pairs, --pair-adapters, demultiplexing) run serially and with 2-5 simulated workers under a seeded schedule plus a filter-free shadow run; oracle over the files: R1/R2 in lock step with equal ids and in input order, each pair in exactly one destination, destination of every pair equal to a small reference model of the documented filter chain evaluated on the shadow records, --pair-adapters same-rank rule.",
+        text="Seeded paired-end cases (two files/interleaved, R1/R2 of very different lengths so chunk limits differ, one-sided adapters, every --pair-filter, LEN/LEN:LEN2/LEN:/:LEN2, redirect pairs, --pair-adapters, demultiplexing) run serially and with 2-5 simulated workers under a seeded schedule plus a filter-free shadow run; oracle over the files: R1/R2 in lock step with equal ids and in input order, each pair in exactly one destination, destination of every pair equal to a small reference model of the documented filter chain evaluated on the shadow records, --pair-adapters same-rank rule, and consistency of the match witness (a mate with a recorded match must differ from its input, one without must equal it).",
         design="5/C05",
         note="Trusted: simulation kernel/SimFS as for C06; the reference model (props/model.py) transcribes the documented criteria; match status read from cutadapt's own --rename stamp; float criteria within 1e-4 of the threshold are not judged.",
     ),
@@ -53,7 +53,7 @@ CHECKS = {
     ),
     "C20": dict(
         level="exploration",
-        text="Seeded cases with all adapter types (incl. anywhere, linked), --times 1-3, all actions, --revcomp (single-end), --pair-adapters, always --info-file and --json, run serially and with 2-5 simulated workers (each worker tallies its chunks, main merges) under a seeded schedule; the info-file rows of the same run are tallied per adapter/end (matches, removed length x errors, adjacent bases, 5'/3' split, reverse-complement matches) and must equal the JSON report (adapters_read2 via a mirrored run); error_lengths must equal int(L*rate) for every L.",
+        text="Seeded cases with all adapter types (incl. anywhere, linked), --times 1-3, all actions, --revcomp (single-end), --pair-adapters, always --info-file and --json, run serially and with 2-5 simulated workers (each worker tallies its chunks, main merges) under a seeded schedule; the info-file rows of the same run are tallied per adapter/end (matches, removed length x errors, adjacent bases, 5'/3' split, reverse-complement matches) and must equal the JSON report (adapters_read2 via a mirrored run), and so must the per-adapter sections of the text report (trimmed counts, histograms, max.err, bases preceding, allowed errors); error_lengths must equal int(L*rate) for every L.",
         design="5/C20",
         note="Trusted: simulation kernel/SimFS as for C06; the info file as independent record of the applied matches (not usable with paired --revcomp, which is therefore not generated).",
     ),
